@@ -61,6 +61,25 @@ fn skip_vs_read(mode: u8, data: &[u8], ctx: Ctx, j: usize, variant: u8, obs: &[i
 
 pub fn run(em: &mut Emitter, rng: &mut Rng, thorough: bool) {
     let ctxs = [Ctx::Top, Ctx::Definite, Ctx::Indefinite];
+    // after an explicit mode switch inside a value: skipping and reading still agree, value by value and at the
+    // end of the value (the end-of-contents of an indefinite-length value read under DER rules included)
+    for outer in 0..3u8 { for inner in 0..3u8 { for ctx in [Ctx::Definite, Ctx::Indefinite] {
+        if !ctx_ok(outer, ctx) { continue }
+        for members in [&[0x02u8, 0x01, 0x01, 0x30, 0x02, 0x05, 0x00][..], &[], &[0x04, 0x01, 0xaa], &[0x30, 0x80, 0x05, 0x00, 0x00, 0x00], &[0x02, 0x81, 0x01, 0x05]] {
+            let data = wrap(ctx, members);
+            for k in 0..4usize {
+                let skipping: Vec<Prog> = std::iter::once(Prog::SetMode(inner)).chain((0..k).map(|_| Prog::Skip { variant: 2, fk: 0, fa: 0, fb: 0 })).chain(std::iter::once(Prog::Skip { variant: 3, fk: 0, fa: 0, fb: 0 })).collect();
+                let reading: Vec<Prog> = std::iter::once(Prog::SetMode(inner)).chain((0..k).map(|_| Prog::Take { opt: true, kind: 0, exp: None, body: Body::Generic })).chain(std::iter::once(Prog::ReadAll)).collect();
+                let (ps, pr) = (in_ctx(ctx, skipping), in_ctx(ctx, reading));
+                let d2 = data.clone();
+                prog_case(em, 1001, outer, &ps, &data, move |obs| {
+                    let r = run_slice(outer, &pr, &d2);
+                    if obs.first() == Some(&3) || r.first() == Some(&3) { Oracle::Fail("panic".into()) }
+                    else if (obs.first() == Some(&0)) != (r.first() == Some(&0)) { Oracle::Fail("skipping-and-reading-disagree-after-a-mode-switch".into()) } else { Oracle::Pass }
+                }, true);
+            }
+        }
+    }}}
     for _ in 0..(if thorough { 240_000 } else { 6_000 }) {
         let mode = rng.below(3) as u8;
         let ctx = *rng.pick(&ctxs);
